@@ -65,9 +65,9 @@ func QuickRuns(id string) (int, int) {
 	case "C02", "C03", "C09":
 		return 500, 120
 	case "C04":
-		return 1500, 120
+		return 400, 120
 	case "C08":
-		return 1200, 120
+		return 400, 120
 	case "C05", "C12", "C11":
 		return 800, 120
 	case "C06":
